@@ -9,6 +9,7 @@ import (
 	"verifh/eng/conc"
 	"verifh/eng/crypto"
 	"verifh/eng/evdb"
+	"verifh/eng/mint"
 	"verifh/eng/notar"
 	"verifh/eng/schist"
 	"verifh/eng/store"
@@ -26,6 +27,7 @@ var engines = map[string]func([]string) int{
 	"crypto":    crypto.Main,
 	"codec":     codec.Main,
 	"evdb":      evdb.Main,
+	"mint":      mint.Main,
 	"notar":     notar.Main,
 	"unitsc":    unitsc.Main,
 	"unitchain": unitchain.Main,
